@@ -347,11 +347,26 @@ func (c *Client) Connect() error {
 				return err
 			}
 		case <-c.groupCtx.Done():
-			return c.group.Wait()
+			return c.interrupted()
 		}
 	}
 
 	return errors.New("connect timeout")
+}
+
+// ErrDisconnected is returned by a call which was still waiting for the reply
+// of the MQTT-SN gateway when the client was closed or disconnected by the
+// gateway.
+var ErrDisconnected = errors.New("client disconnected before the reply arrived")
+
+// interrupted waits for the client's goroutines and returns the error of a call
+// which cannot get its reply anymore: the error which made the client quit, or
+// ErrDisconnected if the client quit regularly (the call has not succeeded).
+func (c *Client) interrupted() error {
+	if err := c.group.Wait(); err != nil {
+		return err
+	}
+	return ErrDisconnected
 }
 
 // Register sends a REGISTER packet to the MQTT-SN gateway.
@@ -369,7 +384,7 @@ func (c *Client) Register(topic string) error {
 	case <-transaction.Done():
 		return transaction.Err()
 	case <-c.groupCtx.Done():
-		return c.group.Wait()
+		return c.interrupted()
 	}
 }
 
@@ -387,7 +402,7 @@ func (c *Client) subscribe(topicName string, topicIDType uint8, topicID uint16, 
 	case <-transaction.Done():
 		return transaction.Err()
 	case <-c.groupCtx.Done():
-		return c.group.Wait()
+		return c.interrupted()
 	}
 }
 
@@ -422,7 +437,7 @@ func (c *Client) unsubscribe(topicName string, topicIDType uint8, topicID uint16
 	case <-transaction.Done():
 		return transaction.Err()
 	case <-c.groupCtx.Done():
-		return c.group.Wait()
+		return c.interrupted()
 	}
 }
 
@@ -471,7 +486,7 @@ func (c *Client) publish(topicIDType uint8, topicID uint16, qos uint8, retain bo
 	case <-transaction.Done():
 		return transaction.Err()
 	case <-c.groupCtx.Done():
-		return c.group.Wait()
+		return c.interrupted()
 	}
 }
 
@@ -504,7 +519,7 @@ func (c *Client) PublishPredefined(topicID uint16, payload []byte, qos uint8, re
 func (c *Client) Ping() error {
 	cancelled, err := c.ping(false)
 	if cancelled {
-		return c.group.Wait()
+		return c.interrupted()
 	}
 	return err
 }
@@ -553,7 +568,7 @@ func (c *Client) Sleep(duration time.Duration) error {
 	case <-transaction.Done():
 		return transaction.Err()
 	case <-c.groupCtx.Done():
-		return c.group.Wait()
+		return c.interrupted()
 	}
 }
 
